@@ -18,7 +18,7 @@
      * the process time zone is UTC (offset functions constantly 0): the harness runs the implementation with TZ=UTC
        for the cases that reach a datetime text. *)
 From Coq Require Import SpecFloat.
-From BS Require Import Model.Base Model.Num Model.Arith Model.ExprParser Model.Script Model.Interp Model.LibLift.
+From BS Require Import Model.Base Model.Num Model.Arith Model.ExprParser Model.Script Model.Interp Model.LibLift Gen.Unicode.
 From BS Require Model.Json Model.NumText Model.Calendar Gen.ArgSpecs.
 Local Open Scope Z_scope.
 
@@ -282,6 +282,53 @@ Definition fmt_fixed (f : flt) (d : nat) : option str :=
   | _ => None
   end.
 
+(* float(text) / int(text) strip Py_ISSPACE characters and (after the transformation of non-ASCII spaces to ' ') Unicode spaces,
+   but NOT the ASCII separators 0x1C..0x1F, which str.strip() does strip: Model/Num.v [strip] removes them, so a text that
+   contains one is answered here (float() / int() raise ValueError wherever it stands: the result is None) *)
+Definition has_ascii_sep (s : str) : bool := existsb (fun c => ((28 <=? c) && (c <=? 31))%N) s.
+
+(* int(text, radix), 2 <= radix <= 36 (PyLong_FromString): sign; an optional 0x / 0o / 0b prefix matching the radix, after which
+   one underscore may stand; digits 0-9 a-z A-Z (and Unicode decimal digits) below the radix with single underscores between
+   them; nothing else.  None = ValueError *)
+Definition radix_digit (c : N) : option Z :=
+  match digit_val c with
+  | Some d => Some (Z.of_N d)
+  | None => if ((97 <=? c) && (c <=? 122))%N then Some (Z.of_N c - 87)
+            else if ((65 <=? c) && (c <=? 90))%N then Some (Z.of_N c - 55) else None
+  end.
+Fixpoint scan_radix (radix : Z) (s : str) (acc : Z) (n : nat) (prev_us : bool) : option (Z * nat * str) :=
+  match s with
+  | [] => if prev_us then None else Some (acc, n, [])
+  | c :: t =>
+    if (c =? 95)%N then (if prev_us then None else scan_radix radix t acc n true)
+    else match radix_digit c with
+         | Some d => if d <? radix then scan_radix radix t (acc * radix + d) (S n) false
+                     else if prev_us then None else Some (acc, n, s)
+         | None => if prev_us then None else Some (acc, n, s)
+         end
+  end.
+Definition parse_int_radix (radix : Z) (s0 : str) : option Z :=
+  if has_ascii_sep s0 then None else
+  let s := strip s0 in
+  let '(neg, t) := match s with 45%N :: t => (true, t) | 43%N :: t => (false, t) | _ => (false, s) end in
+  let t1 :=
+    match t with
+    | 48%N :: p :: r =>
+      let pl := lower_ascii p in
+      if ((radix =? 16) && (pl =? 120)%N) || ((radix =? 8) && (pl =? 111)%N) || ((radix =? 2) && (pl =? 98)%N)
+      then match r with 95%N :: r' => r' | _ => r end
+      else t
+    | _ => t
+    end in
+  match t1 with
+  | 95%N :: _ => None                                       (* may not start with an underscore *)
+  | _ =>
+    match scan_radix radix t1 0 O false with
+    | Some (v, S _, []) => Some (if neg then - v else v)
+    | _ => None
+    end
+  end.
+
 Definition pi_flt : flt := S754_finite false 7074237752028440 (-51).      (* math.pi = 0x1.921fb54442d18p+1 *)
 
 Definition is_ascii (s : str) : bool := forallb (fun c => (c <? 128)%N) s.
@@ -408,6 +455,7 @@ Definition libmore_pure (name : str) (args : list value) (arrs : arrs_t) (objs :
     validated name args arrs objs (fun va _ =>
       match va with
       | [MV (VStr s)] =>
+        if has_ascii_sep s then pval VNull arrs objs else
         match T.py_dec s with
         | None => pval VNull arrs objs                                            (* ValueError -> None *)
         | Some (_, T.PInf) | Some (_, T.PNan) => pval VNull arrs objs
@@ -422,13 +470,16 @@ Definition libmore_pure (name : str) (args : list value) (arrs : arrs_t) (objs :
     validated name args arrs objs (fun va _ =>
       match va with
       | [MV (VStr s); MV (VNum r)] =>
-        if match arg_int r with Some 10 => true | _ => false end then
+        match arg_int r with
+        | Some radix =>
           if Nat.ltb long_int_digits (length s) then poracle arrs objs
-          else match T.value_parse_integer s with
+          else if has_ascii_sep s then pval VNull arrs objs
+          else match (if radix =? 10 then T.value_parse_integer s else parse_int_radix radix s) with
                | Some z => pval (int_v z) arrs objs
                | None => pval VNull arrs objs
                end
-        else poracle arrs objs                                                    (* other radixes: not modelled *)
+        | None => poracle arrs objs
+        end
       | _ => poracle arrs objs
       end)
   else if op_is name "numberToFixed" then
